@@ -10,7 +10,7 @@
    them (AllValidIn for the version filter, TypeAgrees for the kept element type). *)
 From AV Require Import Base.Bytes Base.Outcome Hash.HashModel Tree.Heap Tree.Ops Tree.Script Tree.Inv Tree.Copy
   Tree.CopyProofsDefs Tree.CopyProofsDeep Tree.CopyProofsCreate Tree.CopyProofsTop Tree.CopyProofsBridge
-  Tree.CopyProofsTiny Tree.Frame.
+  Tree.CopyProofsTiny Tree.Frame Tree.CopyProofsReg.
 Open Scope list_scope.
 Open Scope N_scope.
 
@@ -140,3 +140,18 @@ Theorem C13_independent_partial : forall T tab_el tab_en check_fn LATEST root_at
   (forall x, Sub w' (m_root xb) x <-> Sub w (m_root xb) x) /\
   (forall x, Sub w' (m_root xb) x -> x < w_next w).
 Proof. exact independent_op. Qed.
+
+(* REGISTERED (references): after a successful copy every reference element of the copied subtree (reached from the
+   copy c through content lists in the FINAL world) with text p is listed by get_references_to(p) of the destination's
+   model *)
+Theorem C13_registered_refs : forall T LATEST h other pos w c w' m,
+  Closed w -> copy_call T LATEST h other pos w = Val (OK c, w') ->
+  model_of h w = Val (OK m, w) ->
+  forall j p, Sub w' c j -> RefText T w' j p -> HasOrigin w' m p j.
+Proof. exact copy_registered_refs. Qed.
+
+(* the registration walk itself, for any subtree *)
+Theorem C13_register_walk_refs : forall T f m cur i w r w',
+  register_subtree T f m cur i w = Val (r, w') ->
+  forall j p, Sub w i j -> RefText T w j p -> HasOrigin w' m p j.
+Proof. exact register_subtree_refs. Qed.
